@@ -110,7 +110,10 @@ pub async fn add(
 
     debug!("Parsing peers from PeersArgs");
 
-    peers_args.addrs.extend(PeersArgs::read_addr_from_env());
+    // A genesis node takes no peers: the node rejects `--first` together with `--peer`.
+    if !peers_args.first {
+        peers_args.addrs.extend(PeersArgs::read_addr_from_env());
+    }
     peers_args.bootstrap_cache_dir = bootstrap_cache_dir;
 
     let options = AddNodeServiceOptions {
